@@ -34,6 +34,8 @@ def families(tier: str) -> list[dict]:
         dict(model='mlp2nb', decay=1.0, accum=2, in_hook=False),
         dict(model='mlp3', decay=0.5, accum=1, in_hook=True,
              grad_scaler=8.0),
+        # a large flattened batch (batch x tokens = 4500+ rows)
+        dict(model='nd', decay=0.9, accum=1, in_hook=True, batch=1500),
         # dynamic loss scaling: the scale differs between the micro-batches
         # of one accumulation window and between iterations
         dict(model='mlp2', decay=0.8, accum=2, in_hook=True,
